@@ -167,10 +167,19 @@ class TRec(Ty):
     """Dictionary accessed with literal keys: one optional field per declared key plus an
     opaque ``rest`` standing for every other key."""
 
-    def __init__(self, rname, fields):
+    def __init__(self, rname, fields, required=()):
         self.rname = rname
         self.fields = dict(fields)
         self.name = "Rec(%s)" % rname
+        # type invariant (an assumption listed in the evidence): these keys are always present in a dictionary of this kind
+        self.required = frozenset(required)
+
+    def present(self, terms, fname):
+        """presence of a declared key as a formula"""
+        if fname in self.required:
+            return z3.BoolVal(True)
+        lo, hi, ft = self.field_slice(fname)
+        return terms[lo]
 
     def comps(self):
         out = []
@@ -368,6 +377,8 @@ def coerce(v, ty):
             for f, ft in ty.fields.items():
                 if f in v.items:
                     terms += [z3.BoolVal(True)] + coerce(v.items[f], ft).terms
+                elif f in ty.required:
+                    raise TypeError("dictionary literal lacks the required key %r of %s" % (f, ty.rname))
                 else:
                     terms += [z3.BoolVal(False)] + default_terms(ft)
             if set(v.items) - set(ty.fields):
@@ -438,7 +449,7 @@ def veq(a, b):
         conj = []
         for f in ta.fields:
             lo, hi, ft = ta.field_slice(f)
-            pa, pb = a.terms[lo], b.terms[lo]
+            pa, pb = ta.present(a.terms, f), ta.present(b.terms, f)
             conj.append(pa == pb)
             conj.append(z3.Or(z3.Not(pa), veq(Val(ft, a.terms[lo + 1:hi]), Val(ft, b.terms[lo + 1:hi]))))
         conj.append(a.terms[-1] == b.terms[-1])
